@@ -860,13 +860,16 @@ fn probes(_cfg: &Config, s: &mut Session, cx: &mut Ctx, g: &mut Rng) {
 
 macro_rules! blob {
     ($s:expr, $cx:expr, $name:expr, $owned:ty, $read:ty, $label:expr, $bytes:expr) => {{
+        blob!($s, $cx, $name, $owned, $read, $label, $bytes, |_, _| {})
+    }};
+    ($s:expr, $cx:expr, $name:expr, $owned:ty, $read:ty, $label:expr, $bytes:expr, $norm:expr) => {{
         use read_fonts::FontRead;
         let owned = catch(|| <$owned as FontRead>::read(read_fonts::FontData::new($bytes)));
         match owned {
             Err(p) => $s.oracle(&format!("to-owned-no-panic:{}", $name), false, || $label.to_string(), || p),
             Ok(Err(_)) => $s.count(&format!("blob-unreadable:{}", $name)),
             Ok(Ok(v)) => {
-                rt!($s, $cx, $name, $owned, $read, &format!("blob:{}", $label), &v);
+                rt!($s, $cx, $name, $owned, $read, &format!("blob:{}", $label), &v, $norm);
             }
         }
     }};
@@ -909,4 +912,26 @@ fn blobs(_cfg: &Config, s: &mut Session, cx: &mut Ctx) {
     blob!(s, cx, "FeatureList", w::layout::FeatureList, r::layout::FeatureList, "FEATURELIST_AND_FEATURE", t::layout::FEATURELIST_AND_FEATURE);
     blob!(s, cx, "Post", w::post::Post, r::post::Post, "post::SIMPLE", t::post::SIMPLE);
     blob!(s, cx, "Meta", w::meta::Meta, r::meta::Meta, "meta::SIMPLE_META_TABLE", t::meta::SIMPLE_META_TABLE);
+    // incremental font transfer: format 2 patch maps (flag-gated fields) and patches.  Format 1 is left out: its
+    // write side is declared unimplemented in the schema (`#[compile(skip)] // TODO …` on the glyph / feature map arrays)
+    macro_rules! ift {
+        ($name:expr, $owned:ty, $read:ty, $f:ident) => {{
+            ift!($name, $owned, $read, $f, |_, _| {})
+        }};
+        ($name:expr, $owned:ty, $read:ty, $f:ident, $norm:expr) => {{
+            let b = t::ift::$f();
+            blob!(s, cx, $name, $owned, $read, concat!("ift::", stringify!($f)), b.as_slice(), $norm);
+        }};
+    }
+    ift!("Ift", w::ift::Ift, r::ift::Ift, codepoints_only_format2, crate::norm_ift);
+    ift!("Ift", w::ift::Ift, r::ift::Ift, format2_with_one_charstrings_offset, crate::norm_ift);
+    ift!("Ift", w::ift::Ift, r::ift::Ift, format2_with_two_charstrings_offset, crate::norm_ift);
+    ift!("Ift", w::ift::Ift, r::ift::Ift, features_and_design_space_format2, crate::norm_ift);
+    ift!("Ift", w::ift::Ift, r::ift::Ift, child_indices_format2, crate::norm_ift);
+    ift!("Ift", w::ift::Ift, r::ift::Ift, custom_ids_format2, crate::norm_ift);
+    ift!("Ift", w::ift::Ift, r::ift::Ift, string_ids_format2, crate::norm_ift);
+    ift!("Ift", w::ift::Ift, r::ift::Ift, table_keyed_format2, crate::norm_ift);
+    ift!("TableKeyedPatch", w::ift::TableKeyedPatch, r::ift::TableKeyedPatch, table_keyed_patch, crate::norm_tkp);
+    ift!("TableKeyedPatch", w::ift::TableKeyedPatch, r::ift::TableKeyedPatch, noop_table_keyed_patch);
+    ift!("GlyphKeyedPatch", w::ift::GlyphKeyedPatch, r::ift::GlyphKeyedPatch, glyph_keyed_patch_header);
 }
